@@ -706,8 +706,17 @@ func (api *API) ClusterMessage(ctx context.Context, reqBody io.Reader) error {
 		return errors.Wrap(err, "reading body")
 	}
 
+	// The first byte is the message type. Cluster messages also arrive over
+	// gossip, where nothing recovers a panic, so a short or unknown message
+	// has to come back as an error.
+	if len(body) == 0 {
+		return NewBadRequestError(errors.New("empty cluster message"))
+	}
 	typ := body[0]
 	msg := getMessage(typ)
+	if msg == nil {
+		return NewBadRequestError(fmt.Errorf("unknown cluster message type %d", typ))
+	}
 	err = api.server.serializer.Unmarshal(body[1:], msg)
 	if err != nil {
 		return errors.Wrap(err, "deserializing cluster message")
